@@ -510,7 +510,7 @@ def gen_scale_ints():
 
 
 N = {"quick": (1500, 1500, 600, 500), "thorough": (20000, 20000, 6000, 8000)}
-BUDGET_S = {"quick": 60, "thorough": 1200}
+BUDGET_S = {"quick": 90, "thorough": 1200}
 
 
 def campaigns(tier, shard=0, nshards=1):
